@@ -452,6 +452,10 @@ def override_values(case, variant):
         ty = o["ty"]
         vals = {"bool": [True, False], "i32": [0, -1, 7, 2147483647, -2147483648],
                 "u32": [0, 1, 4294967295, 65536], "f32": [0.0, -1.5, 3.0e10, 1.0e-40, 0.25]}[ty]
+        if o.get("array_len"):
+            # the override sizes an array: 0 is invalid there, and naga 24 overflows (panics)
+            # when it computes the size of huge arrays - keep the lengths ordinary
+            vals = [1, 2, 64, 1024]
         v = vals[(variant + r.randrange(len(vals))) % len(vals)]
         lit = {"bool": lambda x: "true" if x else "false", "i32": lambda x: "%di32" % x if x >= 0
                else "(%di32)" % x, "u32": lambda x: "%du32" % x,
